@@ -29,7 +29,7 @@ ASSUMPTIONS = [
     "dtype equality for Parquet is asserted for bool/int/float/string/date/datetime columns",
 ]
 REACH = {"quick": {"fmt:pickle": 150, "fmt:npz": 150, "fmt:parquet": 150, "fmt:csv": 300, "fmt:json": 150, "fmt:lod-json": 80, "fmt:lod-csv": 80,
-                   "fmt:lod-pickle": 80, "suffix:.gz": 150, "suffix:.bz2": 150, "suffix:.xz": 150, "string-na-first": 100, "magic-checked": 300}}
+                   "fmt:lod-pickle": 80, "suffix:.gz": 150, "suffix:.bz2": 150, "suffix:.xz": 150, "string-na-first": 100, "magic-checked": 300, "big-file": 3}}
 
 MAGIC = {".gz": b"\x1f\x8b", ".bz2": b"BZh", ".xz": b"\xfd7zXZ"}
 IO_STR = ["abc", "a,b", 'say "hi"', "line1\nline2", "semi;colon", "tab\there", "pipe|d", "ünï", "日本語", " lead", "trail ", "'single'",
@@ -49,7 +49,17 @@ def _str_values(rng, n, pool, na):
         vals[anchor if anchor or na != "first" else n - 1 if n > 1 else 0] = "abc"
     return vals
 
+def _big_csv(rng):
+    """Size-dependent reader paths: a CSV of several MB (pyarrow reads in 1 MB blocks) with line breaks inside values."""
+    n = rng.choice([30000, 45000])
+    texts = ["first line\nsecond line of this value", "plain value without any break", "a,b;c", 'say "hi"\nand bye', "x" * 70 + "\n" + "y" * 30]
+    spec = [("id", "int", list(range(n))), ("text", "str", [rng.choice(texts) for _ in range(n)]), ("v", "float", [rng.choice([0.5, 1.25, None]) for _ in range(n)]),
+            ("note", "str", [rng.choice(texts + [None]) for _ in range(n)])]
+    return {"fmt": "csv", "suffix": rng.choice(["", "", ".gz"]), "opts": rng.choice([{}, {"sep": ";"}]), "spec": spec, "big": True}
+
 def generate(rng, tier):
+    if rng.random() < 0.006:
+        return _big_csv(rng)
     fmt = rng.choice(FORMATS)
     suffix = rng.choice(["", "", ".gz", ".bz2", ".xz"])
     case = {"fmt": fmt, "suffix": suffix, "opts": {}}
@@ -140,6 +150,7 @@ def execute(case):
         os.remove(os.path.join(d, f))
     res = Result(nontrivial=True)
     res.cls(f"fmt:{fmt}", f"suffix:{suffix or 'plain'}")
+    if case.get("big"): res.cls("big-file")
     for k, v in opts.items():
         res.cls(f"opt:{k}")
     feat = f"{fmt}:{suffix or 'plain'}"
